@@ -806,6 +806,11 @@ def avoids_nontensor(ref, op):
         paths += [P(k) for k in op["keys"]]
     elif name == "split":
         paths += [P(k) for ks in op["sets"] for k in ks]
+    elif name == "flatten" and op["inplace"]:
+        # in-place flattening renames leaf after leaf: when a flattened name clobbers a root entry (D24b region) a later
+        # rename can run through a non-tensor leaf that has just been moved there
+        if nts and any(len(p) > 1 and op["sep"].join(p) in ref for p, _ in r_view(ref, True, True, "n")):
+            return False
     elif name == "unflatten":
         for k, v in ref.items():
             if op["sep"] in k:
